@@ -6,15 +6,19 @@ from ..gen import points as G
 
 PID = "C11"
 TITLE = "k-d tree queries are exact and construction always terminates"
-LEAN_MODULES = ["Mouette.Props.C11"]
+LEAN_MODULES = ["Mouette.Props.C11", "Mouette.Props.C11F"]
 REQUIRED_THEOREMS = ["build_terminates", "buildRoot_terminates", "build_partition", "buildRoot_partition", "build_boxes",
                      "buildRoot_boxes", "radius_exact", "knn_exact", "knn_distances_k_smallest", "kdtree_correct",
-                     "buildOriginal_diverges", "knnOriginal_wrong"]
+                     "buildOriginal_diverges", "knnOriginal_wrong",
+                     # flat model = the code's data structures (Props/C11F.lean)
+                     "buildBFSRoot_terminates", "buildBFSRoot_refines", "buildBFSRoot_ids", "buildBFSRoot_leaves",
+                     "buildBFS_partition", "knnFlat_refines", "knnFlat_exact", "radiusFlat_refines", "radiusFlat_exact"]
 TRUSTED = [
     "Lean 4.33.0 kernel; axioms ⊆ {propext, Classical.choice, Quot.sound}",
     "hand-written model Mouette/Model/KDTree.lean + AABB.lean tied to mouette/spatial/kdtree.py, geometry/aabb.py by the correspondence of this run "
-    "(leaf-partition invariants, sorted squared k-NN distances, radius sets; tree shape and node numbering are NOT compared)",
-    "the model is an inductive tree built by recursion; the code's flat node list, BFS queue and explicit DFS stack are abstracted (the stack order of `query` is reproduced by the recursion)",
+    "(leaf-partition invariants, sorted squared k-NN distances, radius sets; the shape of tree.nodes is compared with the flat model informationally only)",
+    "two models: the recursive tree (theorems of Props/C11.lean) and the flat model Model/KDTreeFlat.lean = the code's own data structures (flat node list with ids, FIFO construction queue, explicit query stack); "
+    "Props/C11F.lean proves that the flat model refines the recursive one (tree read back from the flat list = recursive tree; stack k-NN = recursive k-NN; FIFO radius traversal = recursive radius up to order)",
     "the pivot (`_find_pivot`, numpy.random.choice, numpy.median) is a parameter of the model: theorems hold for every pivot function",
     "floating point: inputs are small dyadic rationals, for which squared distances are exact in binary64 and sqrt preserves order and ties; rounding on other inputs is not modelled",
     "PriorityQueue/heapq abstracted to 'pop returns a candidate of maximum distance' (sorted list truncated to k)",
@@ -75,7 +79,14 @@ def _build(case):
     bound = 64 * (n + 1) * d + 1000
     cnt = {"n": 0}
     orig_split = getattr(KDTree, "_split_points", None)
+    orig_pivot = getattr(KDTree, "_find_pivot", None)
     orig_choice = np.random.choice
+    pivots = []
+
+    def rec_pivot(self, *a, **k):
+        v = orig_pivot(self, *a, **k)
+        pivots.append(v)
+        return v
 
     def counted(self, *a, **k):
         cnt["n"] += 1
@@ -85,12 +96,14 @@ def _build(case):
 
     def on_alarm(*a):
         raise _NonTermination(f"construction still running after {_WALL}s ({cnt['n']} splits so far)")
-    res = {"status": "ok", "tree": None, "detail": "", "P": P}
+    res = {"status": "ok", "tree": None, "detail": "", "P": P, "pivots": pivots}
     old = signal.signal(signal.SIGALRM, on_alarm)
     try:
         np.random.choice = _fake_choice(case)
         if orig_split is not None:
             KDTree._split_points = counted
+        if orig_pivot is not None:
+            KDTree._find_pivot = rec_pivot
         signal.setitimer(signal.ITIMER_REAL, _WALL)
         try:
             res["tree"] = KDTree(P, case["leaf"], case["strategy"])
@@ -106,6 +119,8 @@ def _build(case):
         np.random.choice = orig_choice
         if orig_split is not None:
             KDTree._split_points = orig_split
+        if orig_pivot is not None:
+            KDTree._find_pivot = orig_pivot
         signal.signal(signal.SIGALRM, old)
     _cache["key"], _cache["val"] = key, res
     return res
@@ -182,7 +197,39 @@ def impl_observe(case):
         else:
             r = " ".join([str(len(rad))] + [str(i) for i in sorted(rad)])
         recs.append(f"{a} ; {r}")
-    return " | ".join(recs)
+    return " | ".join(recs) + " || " + _shape(b["tree"])
+
+
+def _shape(tree):
+    """the implementation's tree.nodes in the format of the model's flat node list (informational)"""
+    from mouette.spatial import KDTree
+    out = []
+    for nd in tree.nodes:
+        if isinstance(nd, KDTree.Leaf):
+            pts = sorted(int(i) for i in nd.points)
+            out.append(" ".join(["L", str(len(pts))] + [str(i) for i in pts]))
+        else:
+            out.append(f"N {int(nd.split_axis)} {G.fs(Fraction(float(nd.split_value)))} {int(nd.left)} {int(nd.right)}")
+    return ",".join(out)
+
+
+SHAPE = {"same": 0, "differs": 0}
+
+
+def _report_shape():
+    if SHAPE["same"] + SHAPE["differs"]:
+        print(f"C11 shape of tree.nodes vs flat model (informational): same={SHAPE['same']} differs={SHAPE['differs']}")
+        try:
+            import json as _j, os as _o
+            from ..leanio import ROOT as _R
+            _o.makedirs(_o.path.join(_R, "evidence"), exist_ok=True)
+            _j.dump(SHAPE, open(_o.path.join(_R, "evidence", "C11_shape.json"), "w"))
+        except Exception:  # noqa
+            pass
+
+
+import atexit
+atexit.register(_report_shape)
 
 
 def model_request(case):
@@ -191,11 +238,16 @@ def model_request(case):
     if b["status"] == "ok":
         leaves, inner = _leaves_and_nodes(b["tree"])
         path = {0: 1}
-        for nd in sorted(inner, key=lambda x: x.id):
+        inner = sorted(inner, key=lambda x: x.id)
+        # the k-th call of _find_pivot belongs to the k-th internal node in id (= dequeue) order; when the private
+        # method is not there any more, fall back to the split values stored in the nodes
+        rec = b.get("pivots") or []
+        use_rec = len(rec) == len(inner)
+        for k, nd in enumerate(inner):
             if nd.id not in path:
                 continue
             path[nd.left] = 2 * path[nd.id]; path[nd.right] = 2 * path[nd.id] + 1
-            pivs.append((path[nd.id], Fraction(float(nd.split_value))))
+            pivs.append((path[nd.id], Fraction(float(rec[k] if use_rec else nd.split_value))))
     toks = ["kd", str(case["dim"]), str(case["leaf"]), str(len(case["pts"]))]
     for p in case["pts"]:
         toks += list(p)
@@ -209,6 +261,13 @@ def model_request(case):
 
 
 def compare(case, model, impl):
+    mp, ip = model.split(" || "), impl.split(" || ")
+    if len(mp) == 3:
+        if mp[2] != "flat=1":
+            return "model-internal: the flat BFS/stack model does not agree with the recursive model on this case (" + mp[2] + ")"
+        if len(ip) == 2:
+            SHAPE["same" if mp[1] == ip[1] else "differs"] += 1
+    model, impl = mp[0], ip[0]
     if model == impl:
         return None
     m, i = model.split(" | "), impl.split(" | ")
@@ -284,7 +343,7 @@ def oracle(case):
 def nontrivial(case, obs):
     if not obs.startswith("ok"):
         return False
-    recs = obs.split(" | ")[1:]
+    recs = obs.split(" || ")[0].split(" | ")[1:]
     return len(case["pts"]) > case["leaf"] and any(not r.startswith("0 ;") and not r.startswith("err") for r in recs)
 
 
@@ -399,9 +458,12 @@ MANIFEST = {
                    "construction diverges for every fuel on identical points for every pivot that returns an element "
                    "(buildOriginal_diverges), and the original pruning rule loses neighbours (knnOriginal_wrong). The model is tied to "
                    "the Python class by a correspondence on generated cases (invariants, sorted squared distances, radius sets) and a "
-                   "direct brute-force oracle on exact fractions, with construction under a watchdog."),
-    "level_note": ("Trusted: Lean kernel + propext/Classical.choice/Quot.sound; the hand-written model (tree shape, node ids, BFS order "
-                   "abstracted; checked against the code on the cases of each run only); floats not modelled (inputs are dyadic "
+                   "direct brute-force oracle on exact fractions, with construction under a watchdog. A second, FLAT model mirrors the code's own data "
+                   "structures (self.nodes with ids and children ids, FIFO construction queue, explicit query stack, FIFO radius queue); it is proved to "
+                   "refine the recursive model (buildBFSRoot_refines: the tree read back from the flat list IS the recursive tree; buildBFSRoot_leaves; "
+                   "knnFlat_refines; radiusFlat_refines), so termination, partition, boxes, k-NN and radius exactness hold for the code's shape "
+                   "(buildBFS_partition, knnFlat_exact, radiusFlat_exact); the flat node list is compared with tree.nodes informationally."),
+    "level_note": ("Trusted: Lean kernel + propext/Classical.choice/Quot.sound; the hand-written models (recursive + flat; checked against the code on the cases of each run only); floats not modelled (inputs are dyadic "
                    "rationals for which the code's comparisons are exact); heapq abstracted."),
     "technique": "Lean 4 invariant proofs by structural induction over an executable k-d tree model; differential correspondence + brute-force oracle",
 }
